@@ -117,6 +117,13 @@ Theorem C01_den_depends_only_on_tree_base : forall g1 g2, wf_genome g1 -> wf_gen
 Proof. exact same_tree_same_result. Qed.
 Print Assumptions C01_den_depends_only_on_tree_base.
 
+(* the same without any assumption on the genes outside the active part *)
+Theorem C01_same_unfolding_same_result : forall src g1 g2 n1 n2 l1 l2 t st1 st2,
+  tree_of n1 g1 l1 = Some t -> tree_of n2 g2 l2 = Some t -> example st1 = example st2 ->
+  fst (run_locus_fuel src g1 n1 l1 st1) = fst (run_locus_fuel src g2 n2 l2 st2).
+Proof. exact same_unfolding_same_result. Qed.
+Print Assumptions C01_same_unfolding_same_result.
+
 (* --- laziness: only the arguments a symbol asks for matter ---------------- *)
 
 (* the value of a node depends on the denotations of exactly the children
